@@ -45,6 +45,15 @@ theorem affinity_keeps_counterexample : ¬ PropC33 := by
 
 /-! ### the proved part -/
 
+/-- a request carrying both `keep-cpu-bind` and `cpu-bind` is the same keep-bind request: the explicit
+    `cpu-bind` flag has no influence on `CalculateRealloc` once `keep-cpu-bind` is set -/
+theorem keep_bind_ignores_bind_flag (info : NodeInfo) (B maxShare : Int) (w : Workload) (raw : RawReq) (b : Bool)
+    (order : List String) (hk : raw.keepBind = true) :
+    calculateRealloc info B maxShare w { raw with bind := b } order = calculateRealloc info B maxShare w raw order := by
+  unfold calculateRealloc reallocReq reallocBind reallocExact
+  simp only [hk, if_true]
+
+
 theorem post_bind (w : RawReq) : w.post.bind = w.bind := by
   unfold RawReq.post
   dsimp only
@@ -93,7 +102,7 @@ theorem affinity_keeps_partial (info : NodeInfo) (B maxShare : Int) (w : Workloa
     | cons _ _ => rfl
   unfold calculateRealloc at h
   rw [if_neg (by simp [reallocExact, keepReq])] at h
-  unfold reallocCore reallocReq givenBack keepReq at h
+  unfold reallocCore reallocReq reallocBind givenBack keepReq at h
   simp only [hne, Bool.not_false, if_true, Int.zero_add] at h
   -- request validation
   generalize hnr : ({ bind := true, cpuReq := w.cpuReq, cpuLim := w.cpuLim, memReq := dm + w.memReq, memLim := dm + w.memLim } : RawReq) = newReq at h
